@@ -143,8 +143,11 @@ def run_variant(job):
             dyn = tempo.compute(end_time, progress_type="silent")
         else:
             rt = var.get("pt_roundtrip")
-            pt = oqupy.PtTempo(bath, start, end_time, params, unique=unique, process_tensor_file=True if rt else None)
+            infile = var.get("pt_container") == "file"      # PT-TEMPO writes into an HDF5 container that is used as it is
+            pt = oqupy.PtTempo(bath, start, end_time, params, unique=unique, process_tensor_file=True if (rt or infile) else None)
             ptens = pt.get_process_tensor(progress_type="silent")
+            if infile:
+                info["cleanup"] = ptens.filename
             if rt:
                 # the process tensor is written to a file by PT-TEMPO, closed, and imported again
                 fname = ptens.filename
@@ -166,7 +169,15 @@ def run_variant(job):
                 if rt == "file":
                     ptens.close()
                 _os.remove(fname)
+            if infile and not rt:
+                ptens.remove()
     except Exception as ex:  # pylint: disable=broad-except
+        if info.get("cleanup"):
+            import os as _os
+            try:
+                _os.remove(info["cleanup"])
+            except OSError:
+                pass
         if "probe lattice exceeded" in str(ex):
             raise          # a limit of the probe, not a verdict about the code: machinery error
         return {"mismatch": [{"what": "exception", "detail": "%s: %s" % (type(ex).__name__, ex)}],
